@@ -165,6 +165,7 @@ type cenv struct {
 	callbacks []func()
 	ocfg      hystrix.ConfigureOpener
 	ccfg      hystrix.ConfigureCloser
+	passthru  bool // a nil or zero-value circuit: nothing but Execute / Run / Go may be asked of it
 }
 
 func applyCfg(cfg *circuit.Config, m map[string]string) {
@@ -250,6 +251,12 @@ func newCenvWith(h map[string]string, mgr *circuit.Manager) *cenv {
 	applyCfg(&e.base, map[string]string{"fo": "0", "fc": "0", "dis": "0", "to": "0", "mc": "10", "ii": "0", "fbd": "0", "fbmc": "10"})
 	applyCfg(&e.base, h)
 	e.c.SetConfigThreadSafe(e.base)
+	switch h["pt"] {
+	case "nil":
+		e.c, e.passthru = nil, true
+	case "zero":
+		e.c, e.passthru = &circuit.Circuit{}, true
+	}
 	e.clk.readings = nil
 	return e
 }
@@ -536,9 +543,13 @@ func (e *cenv) exec(m map[string]string) string {
 	if heldCtx != nil && heldCtx != caller {
 		rel = b01(heldCtx.Err() != nil)
 	}
+	var conc, concFb int64
+	if !e.passthru {
+		conc, concFb = e.c.ConcurrentCommands(), e.c.ConcurrentFallbacks()
+	}
 	return fmt.Sprintf("res=%s run=%d fb=%d seen=%s after=%s fbarg=%s fbsame=%s ev=%s rd=%s rel=%s open=%s conc=%d,%d fan=%s",
 		res, runCalls, fbCalls, seen, after, fbarg, b01(fbsame), listOr(e.recs[0].log, ";"), e.readingsStr(), rel,
-		b01(e.c.IsOpen()), e.c.ConcurrentCommands(), e.c.ConcurrentFallbacks(), b01(e.fanOk()))
+		b01(e.c.IsOpen()), conc, concFb, b01(e.fanOk()))
 }
 
 func (circuitSuite) Run(h map[string]string, ops []string) []string {
@@ -628,15 +639,27 @@ func (circuitSuite) Gen(r *rand.Rand, i int) Case {
 	hdr := fmt.Sprintf("circuit opener=%s closer=%s o_n=%d o_dur=%d o_pct=%d o_vol=%d thr=%d c_sleep=%d c_half=%d c_req=%d to=%d mc=%d fbmc=%d ii=%d iei=%s",
 		opener, closer, on, odur, 1+r.Intn(100), 1+r.Intn(4), 1+r.Intn(3), sleep, 1+r.Intn(3), 1+r.Intn(3), to, lim(), lim(), r.Intn(2)*r.Intn(2),
 		pick(r, "unset", "unset", "always", "never", "canceled"))
+	pt := ""
+	if r.Intn(16) == 0 {
+		pt = pick(r, "nil", "zero") // C08: a nil circuit and a zero-value circuit run the function untouched
+		hdr += " pt=" + pt
+	}
 	c := Case{Header: hdr}
 	tag := func(t string) { c.Tags = append(c.Tags, t) }
+	if pt != "" {
+		tag("passthru-" + pt)
+	}
 	tag("opener-" + opener)
 	tag("closer-" + closer)
 	nops := 1 + r.Intn(40)
 	id := 1
 	armed := 0
 	for j := 0; j < nops; j++ {
-		switch x := r.Intn(100); {
+		x := r.Intn(100)
+		if pt != "" {
+			x = x % 70 // only calls
+		}
+		switch {
 		case x < 70:
 			ctx := pick(r, "bg", "bg", "bg", "cancelled", "val", fmt.Sprintf("dl%d", r.Int63n(3000)), fmt.Sprintf("valdl%d", r.Int63n(3000)), "expired-4000000000000000000")
 			var run string
